@@ -696,3 +696,382 @@ class World:
                               % (typ, HANDLES[r], local, "cancelled" if fut.cancelled() else "resolved"))
             keep.append(rec)
         self.futs = keep
+
+
+# ------------------------------------------------------------------------------------------------------- histories and replay
+def norm_step(step):
+    """JSON lists -> the tuples the model works with"""
+    step = list(step)
+    kind = step[0]
+    if kind == "upd":
+        return ("upd", step[1], step[2], tuple(tuple(b) for b in step[3]))
+    if kind == "kill":
+        return ("kill", step[1], tuple(step[2]))
+    return tuple(step)
+
+
+def json_step(step):
+    if step[0] == "upd":
+        return ["upd", step[1], step[2], [list(b) for b in step[3]]]
+    if step[0] == "kill":
+        return ["kill", step[1], list(step[2])]
+    return list(step)
+
+
+def run_history(env, config, steps):
+    """fresh session, run the steps; -> None, or (index of the failing step, Failure). A step the environment assumptions do not
+    allow at that point ends the run without a verdict."""
+    world = World(env, config)
+    try:
+        for i, step in enumerate(steps):
+            if not world.model.enabled(step):
+                return None
+            try:
+                world.step(step)
+            except Failure as f:
+                return i, f
+        return None
+    finally:
+        world.close()
+
+
+def shrink(env, config, steps, key, max_runs=150):
+    """greedy one-step-at-a-time removal while the same clause still fails"""
+    cur = list(steps)
+    runs, i = 0, 0
+    while i < len(cur) - 1 and runs < max_runs:
+        cand = cur[:i] + cur[i + 1:]
+        res = run_history(env, config, cand)
+        runs += 1
+        if res is not None and res[1].key == key:
+            cur = cand[:res[0] + 1]
+        else:
+            i += 1
+    return cur
+
+
+def describe(step):
+    kind = step[0]
+    reg = lambda r: "unknown region %d" % UNKNOWN_HANDLE if r == 2 else "region %d" % HANDLES[r]  # noqa
+    if kind == "upd":
+        name = "ObjectUpdate" if step[1] == "full" else "ObjectUpdateCompressed"
+        return "%s in %s: %s" % (name, reg(step[2]), "; ".join(
+            "local %d = %s #%d, parent %d" % (l, "avatar" if is_avatar(f) else "prim", f, p) for (l, f, p) in step[3]))
+    if kind == "kill":
+        return "KillObject from %s: local %s" % (reg(step[1]), list(step[2]))
+    if kind == "down":
+        return "%s torn down (mark_dead)" % reg(step[1])
+    if kind == "up":
+        return "%s comes back (circuit + track_region_objects)" % reg(step[1])
+    if kind == "terse":
+        return "ImprovedTerseObjectUpdate in %s: local %d" % (reg(step[1]), step[2])
+    if kind == "cached":
+        return "ObjectUpdateCached in %s: local %d (%s)" % (reg(step[1]), step[2],
+                                                           {"hit": "viewer cache has it", "match": "CRC of the tracked object", "miss": "unknown CRC"}[step[3]])
+    if kind == "props":
+        return "%s for #%d" % ("ObjectPropertiesFamily" if step[2] else "ObjectProperties", step[1])
+    if kind == "req":
+        return "%s(%d) on %s" % ("request_objects" if step[3] == UPDATE else "request_object_properties", step[2], reg(step[1]))
+    return "0.3 s pass (debounce timers fire)"
+
+
+class _Recorder:
+    def __init__(self, env):
+        self.env = env
+        self.failures = []
+        self.shrunk_keys = set()
+
+    def record(self, config, steps, f):
+        n = sum(1 for x in self.failures if x["key"] == f.key)
+        if n >= 2:
+            return
+        steps = list(steps)
+        if f.key not in self.shrunk_keys and len(self.shrunk_keys) < 12:
+            self.shrunk_keys.add(f.key)
+            steps = shrink(self.env, config, steps, f.key)
+            res = run_history(self.env, config, steps)
+            observed = res[1].observed if res is not None and res[1].key == f.key else f.observed
+        else:
+            observed = f.observed
+        self.failures.append({"key": f.key, "clause": f.clause,
+                              "input": {"config": config, "steps": [json_step(s) for s in steps], "readable": [describe(s) for s in steps]},
+                              "observed": "after the last step: " + observed})
+
+
+def replay(reg, rec):
+    """vcheck --replay: run a recorded history on the current tree"""
+    inp = rec["input"]
+    env = Env()
+    try:
+        res = run_history(env, inp["config"], [norm_step(s) for s in inp["steps"]])
+    finally:
+        env.close()
+    if res is None:
+        return {"failed": False}
+    return {"failed": True, "step": res[0], "key": res[1].key, "observed": res[1].observed}
+
+
+# --------------------------------------------------------------------------------------------------- driver 1: transition coverage
+def _perms(level):
+    import itertools
+    sigmas = [(0, 1, 2), (1, 0, 2)] if level in ("full", "partial") else [(0, 1, 2)]
+    taus = [(0, 1, 2), (1, 0, 2)] if level in ("full", "partial") else [(0, 1, 2)]
+    rhos = [dict(zip((0,) + LOCALS, (0,) + p)) for p in itertools.permutations(LOCALS)] if level == "full" else [{x: x for x in (0,) + LOCALS}]
+    return [(s, r, t) for s in sigmas for r in rhos for t in taus]
+
+
+def _perm_state(key, perm):
+    sig, rho, tau = perm
+    tracked, objs = key
+    t2 = [None, None]
+    t2[sig[0]], t2[sig[1]] = tracked[0], tracked[1]
+    return (tuple(t2), tuple(sorted((tau[f], -1, 0, 0) if r is None or r == -1 else (tau[f], sig[r], rho[l], rho[p]) for (f, r, l, p) in objs)))
+
+
+def _perm_letter(a, perm):
+    sig, rho, tau = perm
+    if a[0] == "upd":
+        (l, f, p), = a[3]
+        return ("u", sig[a[2]], rho[l], tau[f], rho[p])
+    if a[0] == "kill":
+        return ("k", sig[a[1]], rho[a[2][0]])
+    return (a[0], sig[a[1]])
+
+
+def bounded_transitions(reg, tier, seed):
+    rng = random.Random(seed * 7919 + 14)
+    env = Env()
+    rec = _Recorder(env)
+    level = "full" if tier == "quick" else "partial"
+    perms = _perms(level)
+    alphabet = structural_alphabet()
+    budget = 16000 if tier == "quick" else 220000
+    max_len = 40
+    info = {}                 # concrete state key -> (class key, [(letter, canonical letter)])
+    pending = {}              # class key -> canonical letters not yet executed from a state of the class
+    hist = {}                 # class key -> shortest concrete history seen that reaches it
+    unreachable = set()
+    executed, distinct, samples = 0, set(), []
+    pairs_done = 0
+
+    def state_info(model):
+        k = model.key()
+        inf = info.get(k)
+        if inf is None:
+            imgs = [(_perm_state(k, p), p) for p in perms]
+            ck = min(i[0] for i in imgs)
+            mins = [p for (img, p) in imgs if img == ck]
+            letters = []
+            for a in alphabet:
+                if model.enabled(a):
+                    letters.append((a, min(_perm_letter(a, p) for p in mins)))
+            inf = info[k] = (ck, letters)
+            if ck not in pending:
+                pending[ck] = {ca for _, ca in letters}
+        return inf
+
+    def decoration(model):
+        live = [(v[0], v[1], f) for f, v in sorted(model.objs.items()) if v[0] is not None]
+        roll = rng.random()
+        r, local = rng.choice((0, 1)), rng.choice(LOCALS)
+        if live and rng.random() < 0.7:
+            r, local, _ = rng.choice(live)
+        if roll < 0.45:
+            return ("req", r, local, rng.choice((UPDATE, PROPERTIES)))
+        if roll < 0.6:
+            return ("terse", r, local)
+        if roll < 0.75:
+            st = ("cached", r, local, rng.choice(("match", "miss")))
+            return st if model.enabled(st) else ("cached", r, local, "miss")
+        if roll < 0.95:
+            return ("props", rng.randrange(N_FULL), rng.random() < 0.3)
+        return ("tick",)
+
+    world = None
+    complete = False
+    try:
+        while executed < budget:
+            cands = []
+            if world is not None and len(world.steps) < max_len:
+                ck, letters = state_info(world.model)
+                todo = pending[ck]
+                cands = [(a, ca) for (a, ca) in letters if ca in todo]
+            if not cands:
+                # fresh session, go to the nearest class that still has unexecuted messages
+                if world is not None:
+                    world.close()
+                    world = None
+                targets = [(len(h), ck) for ck, h in hist.items() if pending.get(ck) and ck not in unreachable]
+                world = World(env, DEFAULT_CONFIG)
+                ck0, _ = state_info(world.model)
+                hist.setdefault(ck0, [])
+                if pending[ck0]:
+                    continue
+                if not targets:
+                    complete = True
+                    break
+                _, target = min(targets)
+                ok = True
+                for st in hist[target]:
+                    if not world.model.enabled(st):
+                        ok = False
+                        break
+                    try:
+                        world.step(st)
+                        executed += 1
+                    except Failure:
+                        ok = False              # already recorded when first seen
+                        break
+                if not ok:
+                    unreachable.add(target)
+                    world.close()
+                    world = None
+                continue
+            a, ca = cands[rng.randrange(len(cands))]
+            pending[ck].discard(ca)
+            step = ("upd", rng.choice(("full", "comp")), a[2], a[3]) if a[0] == "upd" else a
+            todo_steps = [step]
+            if rng.random() < 0.15:
+                todo_steps.insert(0, decoration(world.model))
+            failed = False
+            for st in todo_steps:
+                pre = world.model.key()
+                try:
+                    executed += 1
+                    distinct.add((pre, st))
+                    world.step(st)
+                except Failure as f:
+                    rec.record(DEFAULT_CONFIG, world.steps, f)
+                    failed = True
+                    break
+            if failed:
+                world.close()
+                world = None
+                continue
+            pairs_done += 1
+            ck2, _ = state_info(world.model)
+            if ck2 not in hist or len(world.steps) < len(hist[ck2]):
+                hist[ck2] = list(world.steps)
+            if len(samples) < 3 and len(world.steps) == 6:
+                samples.append([describe(s) for s in world.steps])
+    finally:
+        if world is not None:
+            world.close()
+        env.close()
+    remaining = sum(len(v) for ck, v in pending.items() if ck not in unreachable)
+    return {"name": "scene-graph-transitions", "evaluations": executed, "distinct_nontrivial": len(distinct),
+            "rule": "every (abstract scene graph, enabled message) pair over the universe below, up to renaming (%s), is executed once on the "
+                    "real proxy session in sessions of <= %d messages (nearest class with unexecuted messages first; 15%% of the steps are "
+                    "preceded by a request / terse / cached / property message); after every message the whole tracked world is compared with the "
+                    "scene graph. distinct = distinct (scene graph before, message)" %
+                    ({"full": "regions swapped, local ids permuted, the two prims swapped", "partial": "regions swapped, the two prims swapped"}[level], max_len),
+            "bounded": True,
+            "bounds": {"local_ids": list(LOCALS), "full_ids": "2 prims + 1 avatar", "regions": "2 known + 1 unknown handle, teardown / re-handshake",
+                       "messages": len(alphabet), "classes_seen": len(pending), "pairs_executed": pairs_done, "pairs_left": remaining,
+                       "complete": complete, "step_budget": budget},
+            "samples": samples, "failures": rec.failures}
+
+
+# -------------------------------------------------------------------------------------------------------- driver 2: random walks
+def _random_config(rng, locals_, n_full):
+    cache = {}
+    fulls = list(range(n_full))
+    rng.shuffle(fulls)
+    for local in rng.sample(list(locals_), rng.randrange(0, len(locals_))):
+        parent = rng.choice([0] + [x for x in locals_ if x != local])
+        cache[str(local)] = [fulls.pop(), parent]
+    return {"allow_auto": rng.random() < 0.7, "auto_missing": rng.random() < 0.5, "vo_cache": rng.random() < 0.3, "cache": cache}
+
+
+def _random_step(rng, model, locals_, n_full, futs_pending):
+    """one enabled step, or None"""
+    live = [(v[0], v[1], f) for f, v in sorted(model.objs.items()) if v[0] is not None]
+    down = [r for r in (0, 1) if not model.tracked[r]]
+    for _ in range(30):
+        roll = rng.random()
+        if down and roll < 0.25:
+            st = ("up", rng.choice(down))
+        elif roll < 0.42:
+            # full / compressed update: new object, re-announcement, re-parenting, new local id, region crossing
+            kind = rng.choice(("full", "comp"))
+            r = rng.choice((0, 0, 1, 1, 0, 1, 2)) if rng.random() < 0.5 else rng.choice((0, 1))
+            blocks = []
+            for _b in range(1 if rng.random() < 0.8 else rng.randrange(2, 4)):
+                fi = rng.randrange(n_full)
+                cur = model.objs.get(fi)
+                local = rng.choice(locals_)
+                if cur is not None and cur[0] is not None and rng.random() < 0.55:
+                    local = cur[1]
+                    if rng.random() < 0.75 and r != 2:
+                        r = cur[0] if not blocks else r
+                pool = [0, 0] + [x for x in locals_ if x != local]
+                if cur is not None and rng.random() < 0.3:
+                    pool = [cur[2]] if cur[2] != local else [0]
+                blocks.append((local, fi, rng.choice(pool)))
+            st = ("upd", kind, r, tuple(blocks))
+        elif roll < 0.58:
+            r = rng.choice((0, 1))
+            n = 1 if rng.random() < 0.85 else 2
+            pool = [l for (rr, l, _) in live if rr == r] * 2 + list(locals_)
+            st = ("kill", r, tuple(rng.sample(sorted(set(pool)), min(n, len(set(pool))))) if n > 1 else (rng.choice(pool),))
+        elif roll < 0.64:
+            st = ("terse", rng.choice((0, 1, 2)), rng.choice([l for (_, l, _) in live] + list(locals_)))
+        elif roll < 0.73:
+            r = rng.choice((0, 1))
+            st = ("cached", r, rng.choice(locals_), rng.choice(("hit", "hit", "match", "match", "miss")))
+        elif roll < 0.80:
+            st = ("props", rng.randrange(n_full), rng.random() < 0.3)
+        elif roll < 0.93:
+            r, local = rng.choice((0, 1)), rng.choice(locals_)
+            if live and rng.random() < 0.6:
+                r, local, _ = rng.choice(live)
+            st = ("req", r, local, rng.choice((UPDATE, PROPERTIES)))
+        elif roll < 0.96:
+            st = ("tick",)
+        else:
+            st = ("down", rng.choice((0, 1)))
+        if model.enabled(st):
+            return st
+    return None
+
+
+def bounded_random_walks(reg, tier, seed):
+    rng = random.Random(seed * 104729 + 1414)
+    env = Env()
+    rec = _Recorder(env)
+    walks = 150 if tier == "quick" else 2500
+    locals_, n_full = (1, 2, 3, 4), 5
+    executed, distinct, samples = 0, set(), []
+    kinds = {}
+    try:
+        for _w in range(walks):
+            config = _random_config(rng, locals_, n_full)
+            world = World(env, config)
+            try:
+                for _ in range(rng.randrange(20, 70)):
+                    st = _random_step(rng, world.model, locals_, n_full, world.futs)
+                    if st is None:
+                        break
+                    pre = world.model.key()
+                    executed += 1
+                    distinct.add((pre, st))
+                    kinds[st[0]] = kinds.get(st[0], 0) + 1
+                    try:
+                        world.step(st)
+                    except Failure as f:
+                        rec.record(config, world.steps, f)
+                        break
+                if len(samples) < 2:
+                    samples.append([describe(s) for s in world.steps[:8]])
+            finally:
+                world.close()
+    finally:
+        env.close()
+    return {"name": "scene-graph-random-walks", "evaluations": executed, "distinct_nontrivial": len(distinct),
+            "rule": "%d seeded sessions of 20..69 steps over full / compressed updates (1-3 blocks), kills (1-2 blocks), terse and cached updates "
+                    "(viewer-cache hit, CRC match, miss), property replies, object / property requests, region teardown and re-handshake, timer "
+                    "ticks; proxy settings and viewer cache contents vary per session; the whole tracked world and every pending request are "
+                    "checked against the scene graph after every step. distinct = distinct (scene graph before, step)" % walks,
+            "bounded": True, "bounds": {"walks": walks, "local_ids": list(locals_), "full_ids": "4 prims + 1 avatar (index 2)",
+                                        "regions": "2 known + 1 unknown handle", "steps_by_kind": kinds},
+            "samples": samples, "failures": rec.failures}
